@@ -2,7 +2,7 @@
 see selftest/benign/<module>.NOTES.md).  No check of any property may fire on them."""
 ALL = ["C%02d" % i for i in range(1, 21)]
 # behaviour-preserving patches on which a check still raises an alarm (DESIGN 11.6): listed on every run, not failures
-LIMITS = {"w5", "v6", "u3", "q1", "t4"}
+LIMITS = {"w5", "v6", "u3", "q1", "t4", "y3", "y8"}
 CASES = [
     {"id": "benign-%s" % m, "props": ALL, "expect": "quiet", "patches": [("selftest/benign/%s.diff" % m, False)],
      "note": "independent benign refactoring of src/%s/mod.rs" % m}
@@ -82,4 +82,14 @@ CASES = [
                     ("xv6", "NAMES AND CONSTANTS: named array lengths, const ranges, type aliases, label constants, reordered items"),
                     ("xv7", "UNIFORM ERROR HANDLING through a private ensure(cond, err)? helper in every decoder"),
                     ("xv8", "API HYGIENE: must_use, const fn, derives, pub(crate) to_cbor_array, # Panics / # Errors docs"))
+] + [
+    {"id": "benign11-%s" % m, "props": ALL, "expect": "limit" if m in LIMITS else "quiet", "patches": [("selftest/benign/%s.diff" % m, False)], "note": what}
+    for m, what in (("y1", "readability of ten decoders: guard clauses, an early return Ok(..) in from_cbor_bstr, named intermediates, shadowing removed"),
+                    ("y2", "fewer allocations in nine encoders: with_capacity, extend, a pre-sized loop in to_cbor_array"),
+                    ("y3", "generic private helpers (nil_or(value, f), take_optional_slot(&mut a, idx, f), push_optional_entry<K, V>, note_label): documented limit"),
+                    ("y4", "seven array decoders consume a.into_iter() with next() after the length check"),
+                    ("y5", "error construction: arity_error(want), bytes_or_nil, note_map_key, nesting_error with ok_or_else, expectation-string constants"),
+                    ("y6", "builders: shared reserved-label guard, a builder_push! macro, macro <-> hand-written setters, delegation, shared EC2 constructor"),
+                    ("y7", "code moved between modules: context enums into private submodules, builder macros, read_to_value to util, to_cbor_array to common, CborOrdering to key"),
+                    ("y8", "private signatures changed: try_as_tag unboxed, try_as_map returns IntoIter, CoseSignature::from_cbor_value_depth(value) -> from_cbor_array_depth(items): documented limit"))
 ]
